@@ -22,9 +22,8 @@ CONSTANTS
   BugPoolStale = FALSE
   BugStreamKeyless = FALSE
   BugPromoteReplica = FALSE
-  BugTxResendAfterLoss <- ConstTRUE
   MidBatchLoss <- ConstTRUE
-INVARIANTS TypeOK TxResentWhole
+INVARIANTS TypeOK RedirectFollowed AskingPrecedes BoundedRedirects ReachesOwner RetryHonoured BatchOrder TxContiguousOneNode TxResentWhole ReplicaOnlyWhenOptedIn OutOfRangeFallsBackToPrimary NoResendAfterDenied
 CONSTRAINT GenBound
 VIEW MCView
 CHECK_DEADLOCK FALSE
